@@ -13,8 +13,8 @@ def main(argv):
     pid = argv[0].upper()
     try:
         mod = importlib.import_module("sa.props.%s" % pid.lower())
-    except ImportError as e:
-        print("ANALYSIS-ERROR property=%s no checker module: %s" % (pid, e))
+    except Exception as e:
+        print("ANALYSIS-ERROR property=%s checker module could not be loaded: %r" % (pid, e))
         return 2
     return run_check(pid, mod.run, LEVELS.get(pid, "other"), argv[1:])
 
